@@ -448,13 +448,22 @@ func (in *Interp) allocGuard(sz *Term) {
 	over := in.tt.Cmp(OUlt, lim, sz) // unsigned: negative sizes count as huge
 	if in.branch(over) {
 		// prefer a model with a clearly excessive size so that the native replay can observe it
-		big := in.tt.Cmp(OUlt, in.tt.BV(sz.sort.W, 1<<26), sz)
-		res, m := in.solver.Check(in.tt, big, true, in.inputVars())
-		if res != Sat {
-			res, m = in.solver.Check(in.tt, nil, true, in.inputVars())
+		var res Result
+		var m Model
+		rank := 0
+		for i, th := range []uint64{1 << 26, 1 << 21, 0} {
+			var c *Term
+			if th > 0 {
+				c = in.tt.Cmp(OUlt, in.tt.BV(sz.sort.W, th), sz)
+			}
+			res, m = in.solver.Check(in.tt, c, true, in.inputVars())
+			if res == Sat {
+				rank = 3 - i
+				break
+			}
 		}
 		if res == Sat {
-			in.recordViolation("allocation beyond limit", "symbolic allocation size can exceed the limit", m, in.stackString())
+			in.recordViolationRanked("allocation beyond limit", "symbolic allocation size can exceed the limit", m, in.stackString(), rank)
 		}
 		panic(pathEnd{"violation"})
 	}
